@@ -60,7 +60,7 @@ func (s *Storage) Create(rls *rspb.Release) error {
 	slog.Debug("creating release", "key", makeKey(rls.Name, rls.Version))
 	if s.MaxHistory > 0 {
 		// Want to make space for one more release.
-		if err := s.removeLeastRecent(rls.Name, s.MaxHistory-1); err != nil &&
+		if err := s.removeLeastRecent(rls.Name, s.MaxHistory-1, rls.Version); err != nil &&
 			!errors.Is(err, driver.ErrReleaseNotFound) {
 			return err
 		}
@@ -160,7 +160,12 @@ func (s *Storage) History(name string) ([]*rspb.Release, error) {
 //
 // We allow max to be set explicitly so that calling functions can "make space"
 // for the new records they are going to write.
-func (s *Storage) removeLeastRecent(name string, maximum int) error {
+//
+// Only records older than revision newest (the one about to be created) are
+// candidates: a record with that revision or a later one belongs to an
+// operation running at the same time, and removing it would let two
+// operations create the same revision.
+func (s *Storage) removeLeastRecent(name string, maximum int, newest int) error {
 	if maximum < 0 {
 		return nil
 	}
@@ -183,7 +188,7 @@ func (s *Storage) removeLeastRecent(name string, maximum int) error {
 	var toDelete []*rspb.Release
 	for _, rel := range h {
 		// once we have enough releases to delete to reach the maximum, stop
-		if len(h)-len(toDelete) == maximum {
+		if len(h)-len(toDelete) == maximum || rel.Version >= newest {
 			break
 		}
 		if lastDeployed != nil {
